@@ -7,6 +7,7 @@ ConcurrentList, CopyOnWriteArrayList, syncx.Map).  Producer of the lines: harnes
     new <kind> k=v …                     => ok
     pre|call|post …                      => -
     run reps=R seed=S                    => h <events> | h <events> | …       (or `hang`)
+    burst p=P c=C n=N seed=S             => ops=… empty=… … | w <events> | …  (clq permit burst: counters + witness projections)
 
 Every history `h I<tid>:<op> … R<tid>:<result> …` is checked by an exhaustive linearizability search
 (Wing–Gong with memoisation; a pure re-implementation of `Ekit.Conc.LinCheck.dfs`, which lives in `IO`)
@@ -318,6 +319,21 @@ def checker (model : Bool) : Checker where
           | "h" :: toks => (checkHistory model st toks).map fun m => s!"{m}: {st.kind} {h}"
           | ["hang"] => some s!"hang: a call on {st.kind} never returned (all threads were runnable)"
           | _ => some s!"bad-observation {h}"
+        (st, bad)
+    | "burst" :: _ =>
+      -- a long permit burst on the linked queue: counters (informative) followed by witness projections
+      -- `w <events>` = the burst's history restricted to the calls on a few values (a restriction of a
+      -- linearizable FIFO history to the calls on a subset of values is linearizable, so a projection
+      -- that is not linearizable convicts the burst); each is decided by the same search as a history
+      if obs == "skipped" || obs == "" then (st, none)
+      else
+        let segs := obs.splitOn " | "
+        let bad := segs.findSome? fun h =>
+          match words h with
+          | "w" :: toks => (checkHistory model st toks).map fun m =>
+              s!"{m} (projection of a permit burst onto the calls on a few values): {st.kind} h {" ".intercalate toks}"
+          | ["hang"] => some s!"hang: a call on {st.kind} never returned during a burst (all threads were runnable)"
+          | _ => none
         (st, bad)
     | _ => (st, some s!"bad-op {op}")
 
